@@ -281,6 +281,11 @@ func (resp *Resp) next() error {
 		if ctxErr != nil {
 			return ctxErr
 		}
+		// release the throttle from a previous request (retry of a read or seek)
+		if resp.throttleDone != nil {
+			resp.throttleDone()
+			resp.throttleDone = nil
+		}
 		// wait for other concurrent requests to this host
 		throttleDone, throttleErr := h.throttle.Acquire(resp.ctx, reqmeta.Data{
 			Kind: req.MetaKind,
